@@ -269,13 +269,40 @@ pub fn run(ctx: &Ctx) -> Report {
     });
     total.merge(sym);
     total.exhaustive_parts.push("all 315 single clauses and all 99,225 ordered two-clause lists x 3 prefixes (tree compared with the chmod model; the emitted policy executed for all single clauses and 1 in 5 (quick) / all (thorough) pairs)".into());
+    // long lists: a clause, then one other clause repeated (the first clause's bits must survive
+    // however many clauses follow), and the reverse; every length around powers of two
+    let lens: Vec<usize> = vec![5, 8, 11, 12, 13, 14, 15, 16, 17, 31, 32, 33, 63, 64, 65, 100, 255, 256, 257, 1000];
+    let long = run_shards(lens.len(), |li| {
+        let mut st = Stats::new();
+        let n = lens[li];
+        for (k, first) in all.iter().enumerate().filter(|(k, _)| k % 9 == li % 9) {
+            let other = &all[(k * 31 + n) % all.len()];
+            for prefix in 0..3u8 {
+                let mut a = vec![first.clone()];
+                a.extend(std::iter::repeat(other.clone()).take(n - 1));
+                let mut b: Vec<Clause> = std::iter::repeat(other.clone()).take(n - 1).collect();
+                b.push(first.clone());
+                for cl in [a, b] {
+                    let c = Case { prefix, arg: Arg::Symbolic(cl), exec: k % 4 == 0, all_modes: false };
+                    let vd = judge(&c);
+                    st.record(&vd, stable_hash(&c), true, || json!({"kind": "perm-long", "clauses": n, "prefix": prefix, "first": format!("{}{}{}", first.who, first.op, first.perm), "repeated": format!("{}{}{}", other.who, other.op, other.perm)}));
+                    if let Verdict::Fail(_) = vd {
+                        st.failures.last_mut().map(|f| f.case = case_json(&c));
+                    }
+                }
+            }
+        }
+        st
+    });
+    total.merge(long);
+    total.exhaustive_parts.push("lists of 5..1000 clauses (one clause followed or preceded by repetitions of another), every ninth of the 315 x 315 combinations per length".into());
     // random longer lists, random letter orders and repetitions
     let cases = ctx.tier.pick(300_000u32, 3_000_000u32);
     let shards = 16;
     let rnd = run_shards(shards, |shard| {
         let mut st = Stats::new();
         let canon = prop::sample::select(chmod::all_clauses());
-        let strat = (0u8..3, prop_oneof![proptest::collection::vec(canon, 3..5), proptest::collection::vec(clause_strategy(), 1..5)], prop::bool::weighted(0.3))
+        let strat = (0u8..3, prop_oneof![4 => proptest::collection::vec(canon.clone(), 3..5), 4 => proptest::collection::vec(clause_strategy(), 1..5), 1 => proptest::collection::vec(canon, 5..40), 1 => proptest::collection::vec(clause_strategy(), 5..24)], prop::bool::weighted(0.3))
             .prop_map(|(prefix, cl, exec)| Case { prefix, arg: Arg::Symbolic(cl), exec, all_modes: false });
         run_prop(&mut st, ctx.seed, "C08", shard as u64, cases / shards as u32, &strat, judge, case_json);
         st
@@ -283,7 +310,7 @@ pub fn run(ctx: &Ctx) -> Report {
     total.merge(rnd);
     Report {
         stats: total,
-        rule: "octal: every 12-bit value in 4- and 3-digit spelling; symbolic: all 315 clauses, all 99,225 ordered pairs, random 3-4 clause lists and random letter orders/repetitions; each under the prefixes none, '-', '/'. Oracle: chmod model from mode 0 (W = union of who masks, P = perm bits & W; '+': m|=P, '-': m&=~P, '=': m=(m&~W)|P) -> the tree must be Perm(kind(prefix), mode); and semantically: the emitted policy is executed on files with modes {m, m^bit for each of 12 bits, 0, 07777} x {regular file, directory} (a sample on all 4096 modes) and must agree with Equal: mode&07777==m, AtLeast: mode&m==m, Any: mode&m!=0. Non-trivial: list with >=2 clauses whose who-sets overlap, or a '-'/'=' clause after bits were set, or an executed octal case. Distinct: by (prefix, argument).".into(),
+        rule: "octal: every 12-bit value in 4- and 3-digit spelling; symbolic: all 315 clauses, all 99,225 ordered pairs, random 3-4 clause lists (some of 5..40 clauses), random letter orders/repetitions, and lists of up to 1000 clauses made of one clause plus repetitions of another; each under the prefixes none, '-', '/'. Oracle: chmod model from mode 0 (W = union of who masks, P = perm bits & W; '+': m|=P, '-': m&=~P, '=': m=(m&~W)|P) -> the tree must be Perm(kind(prefix), mode); and semantically: the emitted policy is executed on files with modes {m, m^bit for each of 12 bits, 0, 07777} x {regular file, directory} (a sample on all 4096 modes) and must agree with Equal: mode&07777==m, AtLeast: mode&m==m, Any: mode&m!=0. Non-trivial: list with >=2 clauses whose who-sets overlap, or a '-'/'=' clause after bits were set, or an executed octal case. Distinct: by (prefix, argument).".into(),
         assumptions: vec!["'-perm /000' is false for every file (statement of C08: any given bit set), not GNU's special case".into()],
         exhaustive: false,
     }
